@@ -91,6 +91,9 @@ def rd64 (b : Bytes) (o : Nat) : Res Nat := if o + 8 ≤ b.length then .ok (le64
 /-- sub-list `[a, a+n)` -/
 def slice (b : Bytes) (a n : Nat) : Bytes := (b.drop a).take n
 
+/-- checked sub-slice `[a, a+n)`: a fault when it leaves the extent -/
+def rdSlice (b : Bytes) (a n : Nat) : Res Bytes := if a + n ≤ b.length then .ok (slice b a n) else .oob
+
 /-- little-endian encoders -/
 def enc8 (v : Nat) : Bytes := [UInt8.ofNat v]
 def enc16 (v : Nat) : Bytes := [UInt8.ofNat v, UInt8.ofNat (v / 256)]
